@@ -79,7 +79,7 @@ def valspec():
 # ---------------------------------------------------------------------------
 # formula specs -> formula text against the current schema
 
-N_FORMS = 26
+N_FORMS = 34
 
 def _cols(doc, tref, data_only=False, formula_only=False):
   out = []
@@ -135,6 +135,19 @@ def formula_text(doc, tref, spec, self_col=None, max_ref=None):
             '[r.%s for r in $group]' % sc if sc else '$count', 'MAX(r.id for r in $group)',
             'sorted($group.%s, key=repr)' % sc if sc else '$count * 2']
     return opts[c % len(opts)]
+  # value-shape zoo (encodable objects): dates, datetimes, dicts, tuples, NaN/inf, big ints, records
+  if form == 26: return 'DATE(2020, 1 + $id %% 3, 1 + %d)' % (a % 5)
+  if form == 27: return '{"a": %s, "b": [1, 2.5, None]}' % ('$' + c1 if c1 else '$id')
+  if form == 28: return '(%s, "x", None)' % ('$' + c1 if c1 else '$id')
+  if form == 29: return 'DATE(2021, 2, 3) if $id %% 2 else DTIME(DATE(2021, 2, 3 + %d))' % (a % 20)
+  if form == 30: return 'float("nan") if $id % 2 else float("inf")'
+  if form == 31: return ['2 ** 70 + $id', '-(2 ** 31) - $id', '2 ** 53 + 1'][a % 3]
+  if form == 32: return 'rec'
+  if form == 33:
+    dcols = [x for x in mycols if x['type'].split(':')[0] in ('Date', 'DateTime')]
+    if dcols:
+      return '$%s' % dcols[a % len(dcols)]['colId']
+    return 'DATE(1999, 12, 31)'
   if c1 is None or form == 0:
     return ['1', '"x"', 'None', '2.5', '[1, 2]', 'rec.id', '$id * 2'][a % 7]
   if form == 1: return '$%s' % c1
